@@ -8,9 +8,10 @@ From ArgMapper.proofs Require Import C03Exact.
    the same-named supplied value and every type-only parameter a supplied
    value of exactly its type -- whatever other values, converters, providers
    and generators are supplied (c03_ok, also evaluated on implementation
-   traces).  Two hypotheses added w.r.t. ResolverStatements.C03_statement,
-   both forced by documented semantics: the target itself is not a memoized
-   run-once function, and no converter generator reported an error. *)
+   traces; a converter generator that reports an error fails the call before
+   anything runs, c03_ok accounts for that).  One hypothesis added w.r.t.
+   ResolverStatements.C03_statement, forced by the documented FuncOnce
+   semantics: the target itself is not a memoized run-once function. *)
 Theorem C03 : C03_alt_statement.
 Proof. exact C03_alt_proof. Qed.
 Print Assumptions C03.
@@ -20,7 +21,7 @@ Theorem C03_total : C03_total_statement.
 Proof. exact C03_total_proof. Qed.
 Print Assumptions C03_total.
 
-(* the two excluded situations are real: the unrestricted statement is false *)
+(* the excluded situation is real: the unrestricted statement is false *)
 Theorem C03_unrestricted_refuted : ~ C03_statement.
 Proof. exact C03_statement_false. Qed.
 Print Assumptions C03_unrestricted_refuted.
